@@ -106,3 +106,83 @@ def declare(reg):
         is_async=True,
         props=["C18"],
     )
+
+
+def declare_pop3_auth(reg):
+    """POP3 PASS (C18, POP3 path): same order as IMAP LOGIN -- throttle first, then the password; failures are recorded; TRANSACTION only with the password."""
+    S = "asimap/pop3_server.py"
+    T = dict(trusted=True)
+    reg.classdef("POP3Client", {"rem_addr": "str", "g_out": "list[str]"})
+    reg.classdef("POP3SubprocessInterface", {"pop3_client": "ref:POP3Client", "state": "str", "username": "opt[str]", "writer": "opt[opaque:StreamWriter]", "wait_task": "opt[opaque:Task]"}, path=S)
+    reg.contract(S, "POP3Client.push", params={"self": "ref:POP3Client", "data": "list[str]"},
+                 ensures={"appended": "appended(self.g_out, old(self.g_out), data)"}, modifies=["self.g_out"], yields=True, ghost={"varargs": "data"}, **T,
+                 note="A-ASYNC: writes to the POP3 client's socket (ghost g_out)")
+    reg.contract(S, "POP3SubprocessInterface.get_and_connect_subprocess", params={"self": "ref:POP3SubprocessInterface", "user": "ref:PWUser"},
+                 raises={"Exception": None}, modifies=["self.writer", "self.wait_task"], yields=True, **T, note="starts / connects to the user's process; touches no authentication state")
+    reg.contract("<asyncio>", "StreamWriter.close", params={"self": "opaque:StreamWriter"}, **T, note="A-ASYNC")
+    reg.contract("<asyncio>", "StreamWriter.wait_closed", params={"self": "opaque:StreamWriter"}, yields=True, **T, note="A-ASYNC")
+    U, A = "some(self.username)", "self.pop3_client.rem_addr"
+    reg.contract(
+        S, "POP3SubprocessInterface._do_pass", params={"self": "ref:POP3SubprocessInterface", "password": "str"}, ret="bool",
+        requires={"user-given": "not is_none(self.username)",
+                  "in-authorization-state": "self.state == 'authorization'",
+                  "loaded-is-file": "implies(not reload_due(), forall(lambda u: (u in USERS) == pwfile_has(u), 'str') and "
+                                    "forall(lambda u: implies(u in USERS, get(USERS, u).pw_hash == pwfile_hash(u)), 'str'))"},
+        ensures={
+            # the only way into TRANSACTION: not throttled, and the account's current hash accepts the password
+            "transaction-only-with-password": f"implies(self.state != old(self.state), self.state == 'transaction' and pwfile_has({U}) and pw_ok(password, pwfile_hash({U})) and "
+                                              f"not thr_locked(old(BAD_USER_AUTHS), {U}, MAX_USER_ATTEMPTS, clock(), PURGE_TIME) and not thr_locked(old(BAD_IP_AUTHS), {A}, MAX_ADDR_ATTEMPTS, clock(), PURGE_TIME))",
+            # a wrong password on a non-throttled attempt is recorded against the user and the address
+            # "-ERR invalid username or password" (the only reply that lets the client try again on this connection) is given only for a
+            # password the account does not accept, and the failure is recorded against the user and the address before it is given
+            "wrong-password-recorded": f"implies(result and self.state == old(self.state), not (pwfile_has({U}) and pw_ok(password, pwfile_hash({U}))) and "
+                                       f"{U} in BAD_USER_AUTHS and get(BAD_USER_AUTHS, {U})[1] == clock() and {A} in BAD_IP_AUTHS and get(BAD_IP_AUTHS, {A})[1] == clock())",
+            "throttled-is-refused": f"implies(thr_locked(old(BAD_USER_AUTHS), {U}, MAX_USER_ATTEMPTS, clock(), PURGE_TIME) or thr_locked(old(BAD_IP_AUTHS), {A}, MAX_ADDR_ATTEMPTS, clock(), PURGE_TIME), "
+                                    "self.state == old(self.state) and result == False)",
+        },
+        # (a reply that can not be written ends the attempt with the connection's error; nothing is gained by it)
+        raises={"OSError": None, "ConnectionResetError": None},
+        exc_ensures={"no-transaction-on-error": "self.state == old(self.state) or (pwfile_has(some(self.username)) and pw_ok(password, pwfile_hash(some(self.username))))"},
+        modifies=["self.state", "self.writer", "self.wait_task", "global.BAD_USER_AUTHS", "global.BAD_IP_AUTHS", "global.USERS", "global.PW_FILE_LAST_TIMESTAMP", "POP3Client.g_out"],
+        ghost={"globals": {**G_AUTH, **G_THR}},
+        is_async=True,
+        props=["C18"],
+    )
+
+
+def declare_pop3_relay(reg):
+    """POP3 side of the response relay (C20: what RETR announces is what arrives): same loop as IMAPSubprocessInterface.msgs_to_client."""
+    S = "asimap/pop3_server.py"
+    import pyvc.sorts as _s
+
+    reg.classes["POP3SubprocessInterface"].fields["reader"] = _s.parse_ty("opt[ref:StreamReader]")
+    reg.contract(S, "POP3SubprocessInterface.close", params={"self": "ref:POP3SubprocessInterface"}, trusted=True, yields=True, note="closes the connection to the user process; writes nothing to the client")
+    reg.contract(S, "POP3Client.close", params={"self": "ref:POP3Client"}, trusted=True, yields=True, note="closes the client connection; writes nothing")
+    reg.contracts["POP3Client.push"].raises.update({"OSError": None, "ConnectionResetError": None})
+    reg.contracts["POP3Client.push"].exc_ensures["nothing-written"] = "same(self.g_out, old(self.g_out))"
+    reg.contracts["POP3Client.push"].ensures["len"] = "len(self.g_out) == len(old(self.g_out)) + len(data)"
+    OUT = "self.pop3_client.g_out"
+    N0 = f"len(old({OUT}))"
+    RD = "some(self.reader)"
+    P0 = f"old({RD}.g_pos)"
+    reg.contract(
+        S, "POP3SubprocessInterface.msgs_to_client", params={"self": "ref:POP3SubprocessInterface"},
+        requires={"connected": "not is_none(self.reader)", "pos-in-range": f"0 <= {RD}.g_pos and {RD}.g_pos <= len({RD}.g_chunks)"},
+        ensures={
+            "relayed-unmodified-in-order": f"forall(lambda i: implies({N0} <= i and i < len({OUT}), {OUT}[i] == {RD}.g_chunks[{P0} + (i - {N0})]))",
+            "earlier-output-kept": f"len({OUT}) >= {N0} and forall(lambda i: implies(0 <= i and i < {N0}, {OUT}[i] == old({OUT})[i]))",
+            "nothing-skipped": f"len({OUT}) - {N0} == {RD}.g_pos - {P0} or len({OUT}) - {N0} == {RD}.g_pos - {P0} - 1",
+        },
+        loops={0: {"invariant": {
+            "relayed-so-far": f"len({OUT}) - {N0} == {RD}.g_pos - {P0} and {P0} <= {RD}.g_pos and {RD}.g_pos <= len({RD}.g_chunks) and "
+                              f"forall(lambda i: implies({N0} <= i and i < len({OUT}), {OUT}[i] == {RD}.g_chunks[{P0} + (i - {N0})])) and "
+                              f"len({OUT}) >= {N0} and forall(lambda i: implies(0 <= i and i < {N0}, {OUT}[i] == old({OUT})[i]))",
+            "same-streams": "self.reader == old(self.reader) and self.pop3_client == old(self.pop3_client)",
+        }}},
+        modifies=["StreamReader.g_pos", "POP3Client.g_out"],
+        is_async=True,
+        props=["C20"],
+        ghost={"harness": "harness.pop3:Pop3Relay"},
+    )
+    reg.properties.setdefault("C20", {}).setdefault("bounded", []).append(
+        {"name": "pop3-response-relay-unmodified", "module": "harness.pop3", "func": "Pop3Relay"})
